@@ -1,3 +1,423 @@
 import Sheens.SioCrew
+import Sheens.Proofs.ChangeLemmas
 
-/-! Property C15 — theorems (in progress). -/
+/-!
+# Property C15 — reported changes suffice
+
+Over the model of `sio/crew.go`: `setMachine`, `deleteMachine`, `runMachine`, `getChanged` (with its
+suppression cache), the reference consumer's fold `applyChanges`, and `rebuild`.
+
+Views are compared pointwise (per machine id), with a machine stored without a state standing for
+the default state — exactly what the boot path does with it.
+
+One behaviour of the code makes the full statement false: a machine that is deleted and then set
+again *before the deletion has been reported* (both inside one `ProcessMsg`) is reported as
+deleted only (`Changed.Deleted` is never cleared).  The theorems carry the hypothesis that this
+does not happen (`NoPendingDelete`); the negation of the full statement is proved from a concrete
+witness and replayed against the implementation (known finding KF-C15-1).
+
+The invariant has a third conjunct: the cached changes have distinct machine ids.  `Crew.changed` is
+a Go map, so this is a fact of the representation; the model's `put` maintains it and every crew
+starts with `changed = []`.  Without it the operation lemmas are false of the list model
+(`inv_setMachine_full_false` below).  `getChanged_sufficient` needs only the first two conjuncts.
+-/
+
+namespace Sheens.C15
+
+open Sio
+
+def ordinary (mid : String) : Bool := mid != captainId && mid != timersId
+
+/-- what the live crew says about a machine -/
+def liveAt (c : Crew) (mid : String) : Option (State × Option V) :=
+  (find mid c.machines).map (fun m => (defaultState (some m.state), m.src))
+
+/-- what a store says about a machine (no stored state = the default state, as on boot) -/
+def storeAt (store : List (String × Stored)) (mid : String) : Option (State × Option V) :=
+  (find mid store).map (fun s => (defaultState s.state, s.src))
+
+/-- the net report `getChanged` would make for the cached changes, before suppression -/
+def pendingNet (c : Crew) : List (String × Changed) :=
+  (c.changed.filter (fun p => p.1 != captainId)).map (fun (mid, ch) =>
+    if ch.deleted then (mid, { state := none, src := none, deleted := true })
+    else (mid, { state := ch.state.map stateCopy, src := ch.src, deleted := false }))
+
+/-- The first two parts of the invariant between a crew (with its not-yet-reported changes) and the
+    consumer's store: applying the pending changes to the store gives the live crew, machine by
+    machine; and the store already reflects every report remembered in the suppression cache. -/
+def InvCore (c : Crew) (store : List (String × Stored)) : Prop :=
+  (∀ mid, ordinary mid = true → storeAt (applyChanges store (pendingNet c)) mid = liveAt c mid) ∧
+  (∀ mid p, find mid c.previous = some p → applyChanges store [(mid, p)] = store)
+
+/-- The invariant between a crew (with its not-yet-reported changes) and the consumer's store:
+    applying the pending changes to the store gives the live crew, machine by machine; the
+    store already reflects every report remembered in the suppression cache; and the cached changes
+    have distinct ids (`changed` is a map). -/
+def Inv (c : Crew) (store : List (String × Stored)) : Prop :=
+  (∀ mid, ordinary mid = true → storeAt (applyChanges store (pendingNet c)) mid = liveAt c mid) ∧
+  (∀ mid p, find mid c.previous = some p → applyChanges store [(mid, p)] = store) ∧
+  (c.changed.map (·.1)).Nodup
+
+theorem Inv.core {c : Crew} {store : List (String × Stored)} (h : Inv c store) : InvCore c store :=
+  ⟨h.1, h.2.1⟩
+
+/-- no cached change of the crew carries a pending deletion for this id -/
+def NoPendingDelete (c : Crew) (mid : String) : Prop := (changeOf c mid).deleted = false
+
+/-! ## The invariant, machine by machine -/
+
+theorem ordinary_ne {mid : String} (h : ordinary mid = true) : mid ≠ captainId ∧ mid ≠ timersId := by
+  simpa [ordinary] using h
+
+theorem pendingNet_eq (c : Crew) : pendingNet c = netList c.changed := netList_eq _
+
+theorem storeAt_pending (c : Crew) (store : List (String × Stored)) (hn : (c.changed.map (·.1)).Nodup)
+    (mid : String) (hmid : ordinary mid = true) :
+    storeAt (applyChanges store (pendingNet c)) mid =
+      (eff (find mid store) (find mid c.changed)).map sview := by
+  unfold storeAt
+  rw [pendingNet_eq, find_apply_netList _ hn _ _ (ordinary_ne hmid).1]
+  rfl
+
+/-- the invariant read at one machine id -/
+theorem Inv.at {c : Crew} {store : List (String × Stored)} (h : Inv c store) {mid : String}
+    (hmid : ordinary mid = true) :
+    (eff (find mid store) (find mid c.changed)).map sview = (find mid c.machines).map mview := by
+  have := h.1 mid hmid
+  rw [storeAt_pending c store h.2.2 mid hmid] at this
+  exact this
+
+/-- a crew with the same cache, the same pending changes and the same machines (as a map) -/
+theorem inv_congr {c c' : Crew} {store : List (String × Stored)} (h : Inv c store)
+    (hch : c'.changed = c.changed) (hprev : c'.previous = c.previous)
+    (hm : ∀ k, find k c'.machines = find k c.machines) : Inv c' store := by
+  refine ⟨?_, ?_, ?_⟩
+  · intro k hk
+    have := h.1 k hk
+    unfold pendingNet liveAt at this ⊢
+    rw [hch, hm]; exact this
+  · rw [hprev]; exact h.2.1
+  · rw [hch]; exact h.2.2
+
+/-- an operation that records a change `ch'` for `mid` and touches only that machine -/
+theorem inv_update {c c' : Crew} {store : List (String × Stored)} {mid : String} {ch' : Changed}
+    (h : Inv c store) (hprev : c'.previous = c.previous) (hch : c'.changed = put mid ch' c.changed)
+    (hmach : ∀ k, k ≠ mid → find k c'.machines = find k c.machines)
+    (hgood : ordinary mid = true →
+      (app1 (find mid store) (net ch')).map sview = (find mid c'.machines).map mview) :
+    Inv c' store := by
+  have hn : (c'.changed.map (·.1)).Nodup := by rw [hch]; exact nodup_keys_put h.2.2
+  refine ⟨?_, ?_, hn⟩
+  · intro k hk
+    rw [storeAt_pending c' store hn k hk]
+    show _ = (find k c'.machines).map mview
+    by_cases hkm : k = mid
+    · subst hkm
+      rw [hch, find_put_self]
+      exact hgood hk
+    · rw [hch, find_put_ne _ _ hkm, hmach k hkm]
+      exact h.at hk
+  · rw [hprev]; exact h.2.1
+
+/-- what the invariant says at a machine that exists and has no pending deletion -/
+theorem eff_view {o : Option Stored} {och : Option Changed} {m0 : Machine}
+    (hnd : (och.getD emptyChanged).deleted = false)
+    (hinv : (eff o och).map sview = some (mview m0)) :
+    defaultState (upd (o.getD noStored) (net (och.getD emptyChanged))).state = defaultState (some m0.state) ∧
+    (upd (o.getD noStored) (net (och.getD emptyChanged))).src = m0.src := by
+  cases he : eff o och with
+  | none => rw [he] at hinv; cases hinv
+  | some E =>
+    rw [he] at hinv
+    simp only [Option.map_some, Option.some.injEq, sview, mview, Prod.mk.injEq] at hinv
+    rw [eff_some hnd he]
+    exact hinv
+
+theorem inv_setMachine (resolve : V → Option Spec) (c : Crew) (store : List (String × Stored))
+    (mid : String) (src : Option V) (state : Option State)
+    (hmid : ordinary mid = true) (hnd : NoPendingDelete c mid)
+    (hreport : (find mid c.machines).isNone → src.isSome ∨ state.isSome)
+    (h : Inv c store) : Inv (setMachine resolve c mid src state) store := by
+  have hnd0 : ((find mid c.changed).getD emptyChanged).deleted = false := hnd
+  by_cases hrep : (src.isSome || state.isSome) = true
+  · have hnd' : (newCh (changeOf c mid) src state).deleted = false := by
+      rw [newCh_deleted]; exact hnd
+    refine inv_update (ch' := newCh (changeOf c mid) src state) h (setMachine_previous ..)
+      (by rw [setMachine_changed, if_pos hrep])
+      (fun k hk => by rw [setMachine_machines]; exact find_put_ne _ _ hk) ?_
+    intro _
+    rw [setMachine_machines, find_put_self, app1_net_not_deleted _ _ hnd']
+    simp only [Option.map_some, Option.some.injEq]
+    have hinv := h.at hmid
+    cases hfm : find mid c.machines with
+    | none =>
+      rw [hfm] at hinv
+      have he : eff (find mid store) (find mid c.changed) = none := by
+        cases hx : eff (find mid store) (find mid c.changed) with
+        | none => rfl
+        | some _ => rw [hx] at hinv; cases hinv
+      obtain ⟨hoch, ho⟩ := eff_none hnd0 he
+      have hc0 : changeOf c mid = emptyChanged := by unfold changeOf; rw [hoch]; rfl
+      rw [mview_newM_none, ho, hc0]
+      unfold sview
+      rw [upd_net_state _ _ (by rw [newCh_deleted]; rfl), upd_net_src _ _ (by rw [newCh_deleted]; rfl),
+        newCh_state, newCh_src]
+      cases state <;> cases src <;>
+        simp [emptyChanged, noStored, defaultState_stateCopy, stateCopy_stateCopy, defaultState_defaultState]
+    | some m0 =>
+      rw [hfm] at hinv
+      obtain ⟨hs, hsrc⟩ := eff_view hnd0 hinv
+      rw [upd_net_state _ _ hnd0] at hs
+      rw [upd_net_src _ _ hnd0] at hsrc
+      rw [mview_newM_some]
+      unfold sview
+      rw [upd_net_state _ _ hnd', upd_net_src _ _ hnd', newCh_state, newCh_src]
+      have hc0 : changeOf c mid = (find mid c.changed).getD emptyChanged := rfl
+      rw [hc0]
+      refine Prod.ext ?_ ?_
+      · cases state with
+        | none => exact hs
+        | some x => simp [defaultState_stateCopy, stateCopy_stateCopy, defaultState_defaultState]
+      · cases src with
+        | none => exact hsrc
+        | some x => rfl
+  · have hsrc : src = none := by cases src <;> simp_all
+    have hst : state = none := by cases state <;> simp_all
+    subst hsrc; subst hst
+    cases hfm : find mid c.machines with
+    | none => rw [hfm] at hreport; simp at hreport
+    | some m0 =>
+      refine inv_congr h (by rw [setMachine_changed]; rfl) (setMachine_previous ..) ?_
+      intro k
+      rw [setMachine_machines, hfm]
+      exact find_put_same hfm k
+
+theorem inv_deleteMachine (c : Crew) (store : List (String × Stored)) (mid : String)
+    (hmid : ordinary mid = true) (h : Inv c store) : Inv (deleteMachine c mid) store := by
+  have _ := hmid
+  refine inv_update (c' := deleteMachine c mid) (ch' := { (changeOf c mid) with deleted := true })
+    h rfl rfl (fun k hk => find_del_ne _ hk) ?_
+  intro _
+  rw [app1_net_deleted _ _ rfl]
+  show none = (find mid (del mid c.machines)).map mview
+  rw [find_del_self]; rfl
+
+theorem inv_runMachine (c : Crew) (store : List (String × Stored)) (mid : String) (m : Machine) (msg : V)
+    (hmid : ordinary mid = true) (hm : find mid c.machines = some m) (hnd : NoPendingDelete c mid)
+    (h : Inv c store) : Inv (runMachine c mid m msg).1 store := by
+  have hnd0 : ((find mid c.changed).getD emptyChanged).deleted = false := hnd
+  unfold runMachine
+  cases m.spec with
+  | none => exact h
+  | some spec =>
+    simp only
+    cases lastTo (walk spec m.state [msg] c.limit (fun _ => false)).strides with
+    | none => exact h
+    | some t =>
+      simp only
+      have hnd' : ({ (changeOf c mid) with state := some (stateCopy t) } : Changed).deleted = false := hnd
+      refine inv_update (ch' := { (changeOf c mid) with state := some (stateCopy t) }) h rfl rfl
+        (fun k hk => find_put_ne _ _ hk) ?_
+      intro _
+      simp only
+      rw [find_put_self, app1_net_not_deleted _ _ hnd']
+      simp only [Option.map_some, Option.some.injEq]
+      have hinv := h.at hmid
+      rw [hm] at hinv
+      obtain ⟨_, hsrc⟩ := eff_view hnd0 hinv
+      rw [upd_net_src _ _ hnd0] at hsrc
+      unfold sview mview
+      rw [upd_net_state _ _ hnd', upd_net_src _ _ hnd']
+      refine Prod.ext ?_ ?_
+      · rfl
+      · exact hsrc
+
+/-- After `getChanged`, a store that applies the reported changes equals the live crew, and the
+    invariant holds again (with nothing pending).  `same` may be any test that only identifies
+    reports with the same effect. -/
+theorem getChanged_sufficient (same : Changed → Changed → Bool) (c : Crew) (store : List (String × Stored))
+    (hsame : ∀ a b, same a b = true → ∀ st mid, applyChanges st [(mid, a)] = applyChanges st [(mid, b)])
+    (h : Inv c store) :
+    let r := getChanged same c
+    (∀ mid, ordinary mid = true → storeAt (applyChanges store r.2) mid = liveAt r.1 mid) ∧
+    Inv r.1 (applyChanges store r.2) := by
+  intro r
+  have hr : r = _ := getChanged_eq same c
+  obtain ⟨h1, h2⟩ := gfold_inv same hsame store (netList c.changed) c.previous []
+    (fun mid q hq => h.2.1 mid q hq)
+  rw [applyChanges_nil] at h1
+  have ha : ∀ mid, ordinary mid = true → storeAt (applyChanges store r.2) mid = liveAt r.1 mid := by
+    intro mid hmid
+    rw [hr]
+    simp only
+    rw [h1, ← pendingNet_eq]
+    exact h.1 mid hmid
+  refine ⟨ha, ha, ?_, ?_⟩
+  · rw [hr]; exact h2
+  · rw [hr]; exact List.nodup_nil
+
+/-- `getChanged_sufficient` does not need the distinct-ids part of the invariant. -/
+theorem getChanged_sufficient_core (same : Changed → Changed → Bool) (c : Crew) (store : List (String × Stored))
+    (hsame : ∀ a b, same a b = true → ∀ st mid, applyChanges st [(mid, a)] = applyChanges st [(mid, b)])
+    (h : InvCore c store) :
+    let r := getChanged same c
+    (∀ mid, ordinary mid = true → storeAt (applyChanges store r.2) mid = liveAt r.1 mid) ∧
+    Inv r.1 (applyChanges store r.2) := by
+  intro r
+  have hr : r = _ := getChanged_eq same c
+  obtain ⟨h1, h2⟩ := gfold_inv same hsame store (netList c.changed) c.previous []
+    (fun mid q hq => h.2 mid q hq)
+  rw [applyChanges_nil] at h1
+  have ha : ∀ mid, ordinary mid = true → storeAt (applyChanges store r.2) mid = liveAt r.1 mid := by
+    intro mid hmid
+    rw [hr]
+    simp only
+    rw [h1, ← pendingNet_eq]
+    exact h.1 mid hmid
+  refine ⟨ha, ha, ?_, ?_⟩
+  · rw [hr]; exact h2
+  · rw [hr]; exact List.nodup_nil
+
+/-- The full statement is false of the code: delete then re-create inside one round. -/
+def resurrect_full : Prop :=
+  ∀ (resolve : V → Option Spec) (c : Crew) (store : List (String × Stored)) (mid : String)
+    (src : Option V) (state : Option State),
+    ordinary mid = true → ((find mid c.machines).isNone → src.isSome ∨ state.isSome) →
+    Inv c store → Inv (setMachine resolve c mid src state) store
+
+/-- the witness: machine "m" is stored, was deleted, and the deletion is not yet reported -/
+def witnessCrew : Crew :=
+  { machines := [], changed := [("m", { state := none, src := none, deleted := true })],
+    previous := [], limit := none }
+
+def witnessStore : List (String × Stored) := [("m", { state := none, src := none })]
+
+def witnessState : State := { node := "start", bs := some [] }
+
+theorem witness_inv : Inv witnessCrew witnessStore := by
+  refine ⟨?_, ?_, ?_⟩
+  · intro mid _
+    have hp : applyChanges witnessStore (pendingNet witnessCrew) = [] := by
+      simp [pendingNet, witnessCrew, witnessStore, applyChanges, captainId, del]
+    rw [hp]; rfl
+  · intro mid p hp; simp [witnessCrew, find] at hp
+  · simp [witnessCrew]
+
+theorem resurrect_full_false : ¬ resurrect_full := by
+  intro hfull
+  have h := hfull (fun _ => none) witnessCrew witnessStore "m" none (some witnessState)
+    (by decide) (fun _ => Or.inr rfl) witness_inv
+  have h1 := h.1 "m" (by decide)
+  have hp : applyChanges witnessStore
+      (pendingNet (setMachine (fun _ => none) witnessCrew "m" none (some witnessState))) = [] := by
+    simp [pendingNet, setMachine, witnessCrew, witnessStore, applyChanges, captainId, del, put, find,
+      changeOf]
+  rw [hp] at h1
+  simp [storeAt, liveAt, setMachine, witnessCrew, find, put] at h1
+
+/-! ## Why the invariant says that the cached changes have distinct ids
+
+`Crew.changed` is a Go map.  In the list model a `changed` list with two entries for one id can
+satisfy the first two parts of the invariant, and then `setMachine` (which rewrites the first entry
+only) breaks them. -/
+
+/-- `inv_setMachine` over the two-part invariant: false of the list model. -/
+def inv_setMachine_full : Prop :=
+  ∀ (resolve : V → Option Spec) (c : Crew) (store : List (String × Stored)) (mid : String)
+    (src : Option V) (state : Option State),
+    ordinary mid = true → NoPendingDelete c mid →
+    ((find mid c.machines).isNone → src.isSome ∨ state.isSome) →
+    InvCore c store → InvCore (setMachine resolve c mid src state) store
+
+def dupCrew : Crew :=
+  { machines := [("m", { spec := none, src := none, state := { node := "b", bs := some [] } })],
+    changed := [("m", { state := some { node := "a", bs := some [] }, src := none, deleted := false }),
+                ("m", { state := some { node := "b", bs := some [] }, src := none, deleted := false })],
+    previous := [], limit := none }
+
+theorem dupCrew_invCore : InvCore dupCrew [] := by
+  refine ⟨?_, ?_⟩
+  · intro mid _
+    have hp : applyChanges [] (pendingNet dupCrew) =
+        [("m", { state := some { node := "b", bs := some [] }, src := none })] := by
+      simp [pendingNet, dupCrew, applyChanges, captainId, put, find, stateCopy, copyB]
+    rw [hp]
+    unfold storeAt liveAt
+    simp only [dupCrew, find]
+    split
+    · simp [defaultState, copyB]
+    · rfl
+  · intro mid p hp; simp [dupCrew, find] at hp
+
+theorem inv_setMachine_full_false : ¬ inv_setMachine_full := by
+  intro hfull
+  have h := hfull (fun _ => none) dupCrew [] "m" none (some { node := "c", bs := some [] })
+    (by decide) (by simp [NoPendingDelete, changeOf, dupCrew, find]) (fun _ => Or.inr rfl) dupCrew_invCore
+  have h1 := h.1 "m" (by decide)
+  have hp : applyChanges []
+      (pendingNet (setMachine (fun _ => none) dupCrew "m" none (some { node := "c", bs := some [] }))) =
+        [("m", { state := some { node := "b", bs := some [] }, src := none })] := by
+    simp [pendingNet, setMachine, dupCrew, applyChanges, captainId, put, find, changeOf, stateCopy, copyB,
+      defaultState]
+  rw [hp] at h1
+  simp [storeAt, liveAt, setMachine, dupCrew, find, put, defaultState, copyB] at h1
+
+/-! ## Boot -/
+
+theorem liveAt_setMachine_ne (resolve : V → Option Spec) (c : Crew) (mid k : String) (src : Option V)
+    (state : Option State) (h : k ≠ mid) : liveAt (setMachine resolve c mid src state) k = liveAt c k := by
+  unfold liveAt
+  rw [setMachine_machines, find_put_ne _ _ h]
+
+theorem boot_notin (resolve : V → Option Spec) (k : String) (store : List (String × Stored)) :
+    ∀ c : Crew, k ∉ store.map (·.1) →
+      liveAt (store.foldl (fun c (mid, s) => setMachine resolve c mid s.src s.state) c) k = liveAt c k := by
+  induction store with
+  | nil => intro c _; rfl
+  | cons p rest ih =>
+    obtain ⟨k', s⟩ := p
+    intro c hk
+    simp only [List.map_cons, List.mem_cons, not_or] at hk
+    simp only [List.foldl_cons]
+    rw [ih _ hk.2]
+    exact liveAt_setMachine_ne resolve c k' k _ _ hk.1
+
+theorem boot_in (resolve : V → Option Spec) (k : String) (store : List (String × Stored)) :
+    ∀ c : Crew, (store.map (·.1)).Nodup → find k c.machines = none →
+      liveAt (store.foldl (fun c (mid, s) => setMachine resolve c mid s.src s.state) c) k = storeAt store k := by
+  induction store with
+  | nil => intro c _ hc; unfold liveAt storeAt; simp only [List.foldl_nil]; rw [hc]; rfl
+  | cons p rest ih =>
+    obtain ⟨k', s⟩ := p
+    intro c hn hc
+    simp only [List.map_cons, List.nodup_cons] at hn
+    simp only [List.foldl_cons]
+    by_cases hk : k = k'
+    · subst hk
+      rw [boot_notin resolve k rest _ hn.1]
+      unfold liveAt storeAt
+      rw [setMachine_machines, find_put_self, hc]
+      simp only [find, if_true, Option.map_some, Option.some.injEq]
+      exact mview_newM_none resolve s.src s.state
+    · have : storeAt ((k', s) :: rest) k = storeAt rest k := by
+        unfold storeAt; simp only [find, if_neg hk]
+      rw [this]
+      apply ih _ hn.2
+      rw [setMachine_machines, find_put_ne _ _ hk]; exact hc
+
+/-- the crew `rebuild` starts from: the two service machines -/
+def bootCrew (limit : Option Int) : Crew :=
+  { machines := [(captainId, { spec := none, src := none, state := defaultState none }),
+                 (timersId, { spec := none, src := none, state := defaultState none })],
+    changed := [], previous := [], limit := limit }
+
+/-- A crew rebuilt from the store has the same machines in the same states with the same specs. -/
+theorem rebuild_equiv (resolve : V → Option Spec) (limit : Option Int) (store : List (String × Stored))
+    (hnd : (store.map (·.1)).Nodup) (mid : String) (hmid : ordinary mid = true) :
+    liveAt (rebuild resolve limit store) mid = storeAt store mid := by
+  obtain ⟨hc, ht⟩ := ordinary_ne hmid
+  have hb := boot_in resolve mid store (bootCrew limit) hnd (by simp [bootCrew, find, hc, ht])
+  rw [← hb]
+  rfl
+
+end Sheens.C15
